@@ -227,6 +227,12 @@ func GenVTT(r *prng.R, idx int) Doc {
 	if r.Bool(0.3) {
 		fmt.Fprintf(&b, "X-TIMESTAMP-MAP=LOCAL:%s,MPEGTS:%d%s", stamp(r.Intn(10000), "."), r.Intn(1000000), e.s())
 	}
+	if r.Bool(0.3) { // header lines of the "Name: value" kind, as produced by several encoders
+		hs := []string{"Kind: captions", "Language: en", "X-Origin: unit 7", "Source: somewhere", "Copyright: nobody", "Version: 2"}
+		for _, k := range r.Perm(len(hs))[:r.Range(2, 5)] {
+			b.WriteString(hs[k] + e.s())
+		}
+	}
 	b.WriteString(e.s())
 	nreg := 0
 	if r.Bool(0.4) {
@@ -356,6 +362,7 @@ func GenSSA(r *prng.R, idx int) Doc {
 	if r.Bool(0.4) {
 		align = r.PickInt(4095, 4096, 4097)
 	}
+	twoFormats, second := r.Bool(0.15), false
 	for i := 0; i < n; i++ {
 		d := r.Range(200, 4000)
 		fv := "Marked=0"
@@ -381,10 +388,23 @@ func GenSSA(r *prng.R, idx int) Doc {
 		ssaStamp := func(ms int) string {
 			return fmt.Sprintf("%d:%02d:%02d.%02d", ms/3600000, ms/60000%60, ms/1000%60, ms%1000/10)
 		}
-		fmt.Fprintf(&b, "Dialogue: %s,%s,%s,%s,%s,0,0,0,,%s%s", fv, ssaStamp(t), ssaStamp(t+d), style, r.Pick("", "Bob", "Alice"), txt, e.s())
+		if second {
+			fmt.Fprintf(&b, "Dialogue: %s,%s,%s,%s,%s,0,0,0,,%s%s", ssaStamp(t), ssaStamp(t+d), fv, r.Pick("", "Bob", "Alice"), style, txt, e.s())
+		} else {
+			fmt.Fprintf(&b, "Dialogue: %s,%s,%s,%s,%s,0,0,0,,%s%s", fv, ssaStamp(t), ssaStamp(t+d), style, r.Pick("", "Bob", "Alice"), txt, e.s())
+		}
+		if twoFormats && !second && i == (n-1)/2 && i < n-1 {
+			// a second Format line in the same section: the columns of the remaining events are ordered differently
+			second = true
+			b.WriteString("Format: Start, End, " + first + ", Name, Style, MarginL, MarginR, MarginV, Effect, Text" + e.s())
+		}
 		t += d + r.Intn(500)
 		if r.Bool(0.1) {
-			b.WriteString("Comment: " + fv + ",0:00:00.00,0:00:01.00,Default,,0,0,0,,ignored" + e.s())
+			if second {
+				b.WriteString("Comment: 0:00:00.00,0:00:01.00," + fv + ",,Default,0,0,0,,ignored" + e.s())
+			} else {
+				b.WriteString("Comment: " + fv + ",0:00:00.00,0:00:01.00,Default,,0,0,0,,ignored" + e.s())
+			}
 		}
 		if align > 0 && i == n/2 && b.Len() < align-3 {
 			el := e.s()
@@ -695,7 +715,25 @@ func Generated(root *prng.R, perFormat int) []Doc {
 			docs = append(docs, Gen(f, root.Derive("gen-"+f, i), i))
 		}
 	}
-	return docs
+	return append(docs, Fixed()...)
+}
+
+// Fixed returns hand-written documents with features the generators draw only now and then: WebVTT header lines of
+// the "Name: value" kind, SSA events that re-declare their columns, UTF-16 input (rejected by every reader today).
+func Fixed() []Doc {
+	vtt := "WEBVTT - with headers\nKind: captions\nLanguage: en\nX-Origin: unit 7\nSource: somewhere\nCopyright: nobody\n\n" +
+		"1\n00:00:01.000 --> 00:00:02.000\nfirst\n\n2\n00:00:03.000 --> 00:00:04.000 align:left\n<v Bob>second\nline\n\n3\n00:00:05.000 --> 00:00:06.000\nthird\n"
+	ttml := `<?xml version="1.0" encoding="UTF-8"?>
+<tt xml:lang="en" xmlns="http://www.w3.org/ns/ttml"><head><styling><style xml:id="s1" tts:color="white" xmlns:tts="http://www.w3.org/ns/ttml#styling"/></styling></head>
+<body><div><p begin="00:00:01.000" end="00:00:02.000" style="s1">sixteen</p><p begin="00:00:03.000" end="00:00:04.000">bits</p></div></body></tt>`
+	t := Doc{Name: "fixed-ttml", Format: "ttml", Data: []byte(ttml), Cues: 2, Gen: true}
+	return []Doc{
+		{Name: "fixed-vtt-headers", Format: "vtt", Data: []byte(vtt), Cues: 3, Gen: true},
+		SSATwoFormats(false), SSATwoFormats(true),
+		UTF16(t, false), UTF16(t, true),
+		UTF16(Doc{Name: "fixed-vtt-headers", Format: "vtt", Data: []byte(vtt)}, false),
+		UTF16(Doc{Name: "fixed-srt", Format: "srt", Data: []byte("1\n00:00:01,000 --> 00:00:02,000\nsixteen bits\n")}, true),
+	}
 }
 
 // Mutate derives an (often invalid) document from d: truncate, flip, splice.
@@ -883,4 +921,59 @@ func WithRun(d Doc, fill byte, n int) Doc {
 	}
 	b := append(append(append([]byte(nil), d.Data[:k]...), []byte(strings.Repeat(string(fill), n))...), d.Data[k:]...)
 	return Doc{Name: fmt.Sprintf("%s+run%dx%02x", d.Name, n, fill), Format: d.Format, Data: b, Cues: -1, Gen: true}
+}
+
+// SSATwoFormats is an SSA document whose [Events] section re-declares its columns half way: the first Format line is
+// the one nearly every SSA file carries (v4p: the ASS spelling), the second orders the columns differently.
+func SSATwoFormats(v4p bool) Doc {
+	first, fv, st, name := "Marked", "Marked=0", "[V4 Styles]", "ssa-two-formats-v4"
+	if v4p {
+		first, fv, st, name = "Layer", "0", "[V4+ Styles]", "ssa-two-formats-v4plus"
+	}
+	var b strings.Builder
+	b.WriteString("[Script Info]\nTitle: two formats\nScriptType: v4.00")
+	if v4p {
+		b.WriteString("+")
+	}
+	b.WriteString("\n\n" + st + "\nFormat: Name, Fontname, Fontsize, PrimaryColour, Bold\nStyle: Default,Arial,20,&H00FFFFFF,0\n\n[Events]\n")
+	b.WriteString("Format: " + first + ", Start, End, Style, Name, MarginL, MarginR, MarginV, Effect, Text\n")
+	b.WriteString("Dialogue: " + fv + ",0:00:01.00,0:00:02.00,Default,Bob,0,0,0,,first\n")
+	b.WriteString("Dialogue: " + fv + ",0:00:03.00,0:00:04.00,Default,,0,0,0,,second\n")
+	b.WriteString("Format: Start, End, " + first + ", Name, Style, MarginL, MarginR, MarginV, Effect, Text\n")
+	b.WriteString("Dialogue: 0:00:05.00,0:00:06.00," + fv + ",Alice,Default,0,0,0,,third\n")
+	b.WriteString("Dialogue: 0:00:07.00,0:00:08.00," + fv + ",,Default,0,0,0,,fourth\n")
+	return Doc{Name: name, Format: "ssa", Data: []byte(b.String()), Cues: 4, Gen: true}
+}
+
+// UTF16 re-encodes a UTF-8 document as UTF-16 with a byte order mark (TTML: the XML declaration is adjusted). The
+// readers reject such input today; it is the input that support for another encoding would start to accept.
+func UTF16(d Doc, bigEndian bool) Doc {
+	txt := strings.TrimPrefix(string(d.Data), "\xef\xbb\xbf")
+	if d.Format == "ttml" {
+		txt = strings.Replace(txt, `encoding="UTF-8"`, `encoding="UTF-16"`, 1)
+		txt = strings.Replace(txt, `encoding="utf-8"`, `encoding="utf-16"`, 1)
+	}
+	out := make([]byte, 0, 2*len(txt)+2)
+	put := func(u uint16) {
+		if bigEndian {
+			out = append(out, byte(u>>8), byte(u))
+		} else {
+			out = append(out, byte(u), byte(u>>8))
+		}
+	}
+	put(0xfeff)
+	for _, r := range txt {
+		if r >= 0x10000 {
+			r -= 0x10000
+			put(uint16(0xd800 + (r>>10)&0x3ff))
+			put(uint16(0xdc00 + r&0x3ff))
+		} else {
+			put(uint16(r))
+		}
+	}
+	n := d.Name + "~utf16le"
+	if bigEndian {
+		n = d.Name + "~utf16be"
+	}
+	return Doc{Name: n, Format: d.Format, Data: out, Gen: true}
 }
